@@ -281,3 +281,27 @@ func TestVF_C04(t *testing.T) {
 	}
 	wg.Wait()
 }
+
+// C04 "around resharing": the handler-level transition workload of C07 with the emission-timing oracle armed.
+func TestVF_C04_Reshare(t *testing.T) {
+	vfsInstallHook()
+	run := vfNewRun("C04", "beaconnet-transition-clocks")
+	defer run.Finish()
+	n := vfPick(12, 120)
+	var wg sync.WaitGroup
+	sem := make(chan struct{}, 6)
+	for idx := 0; idx < n; idx++ {
+		wg.Add(1)
+		sem <- struct{}{}
+		go func(idx int) {
+			defer wg.Done()
+			defer func() { <-sem }()
+			c := c07Gen(idx)
+			if idx == 0 {
+				run.Sample(c)
+			}
+			c07RunMode(run, c, "c04")
+		}(idx)
+	}
+	wg.Wait()
+}
